@@ -1,4 +1,5 @@
 import Tahoe.Immutable.LemmasVerify
+import Tahoe.Immutable.LemmasComplete
 import Tahoe.Props.C02
 /-! C45 — immutable check, verify and repair.
 
@@ -9,13 +10,14 @@ storage server, C22); repair itself is download (C02) followed by `upload` with 
 `VCfg.asIs` is the verifier as it was before the fix, `VCfg.repaired` the verifier as it is in /repo now (fix fb3513d =
 fixes/C45-verify-block-root.diff: the block hash tree root is taken from the validated share hash leaf).
 
-As built: 11 theorems — `verified_good_implies_all_valid` (+ `verified_good_counterexample` for the old verifier),
+As built: 14 theorems (one `_partial`) — `verified_good_implies_all_valid` (+ `verified_good_counterexample` for the old verifier),
 `healthy_iff_N_good`, `recoverable_iff_k_good`, `corrupt_shares_listed`, `noverify_believes_servers`,
 `recoverable_unhealthy_repair_attempted`, `repair_uses_original_parameters`, `repair_regenerates_identical_shares`,
-`post_repair_healthy_implies_N_good`, `repair_never_alters_good_shares`. Further model parts: `checkServerShares` /
+`post_repair_healthy_implies_N_good`, `repair_never_alters_good_shares`, `repair_output_is_encoder_output`,
+`repaired_share_passes_ct_stage`, `readable_from_repaired_shares_partial`. Further model parts: `checkServerShares` /
 `checkNoVerify`, `repairDecision`, `repairParams`, `gatherRepairResults`, `corruptLocators`. Driver lean/Drv/C45.lean
 (`veup`, `fmt`, `fmtlists`, `noverify`, `verify`, `repairdecision`, `repairparams`, `postrepair`, `repair`) ties each
-of them to the code. Still monitor only: that the file can be read from the repaired shares alone. -/
+of them to the code. Only partially proved (monitor end to end): that the file can be read from the repaired shares alone. -/
 /-! ## Coverage of the statement (properties.jsonl, C45)
 
 | clause of the statement | theorem(s) over the model |
@@ -24,7 +26,7 @@ of them to the code. Still monitor only: that the file can be read from the repa
 | a check is healthy exactly when N distinct good shares are found | `healthy_iff_N_good` (+ the good list is duplicate-free and is exactly the share numbers some server's result lists) |
 | … recoverable exactly when at least k are | `recoverable_iff_k_good` |
 | repair using only the verify-cap produces shares that validate under the original read-cap | `repair_uses_original_parameters` (k, N from the cap, segment size from the VALIDATED UEB — seed C45-b) + `repair_regenerates_identical_shares` (a completed repair read re-publishes exactly the original cap, UEB, trees and blocks); neither uses the read key |
-| … so the file can be read from the repaired shares alone | monitor only (needs the completeness direction: honest shares are accepted and k of them decode — C03/C36); `decide` example for the example file |
+| … so the file can be read from the repaired shares alone | PARTIAL: `repair_output_is_encoder_output` (repaired shares = the uploader's shares, parameters included), `repaired_share_passes_ct_stage` (completeness of the crypttext-hash stage for such shares, C35 `tryBody_complete`), `readable_from_repaired_shares_partial` (one share set; a read over it writes only a prefix of the file and `done` ⇒ the file). Missing links named there: completeness of the share-hash / block-hash / data-block stages, decoding (`Tahoe.C36.immutable_any_k_blocks_decode_rs256`), termination (C03/C46); end to end this clause stays with the monitor (read from repaired shares only) |
 | … and it never alters existing good shares | `repair_never_alters_good_shares` (abstract storage behaviour; refinement by the storage server is C22) |
 | a recoverable, unhealthy file gets a repair attempt, whatever the number of servers holding the good shares (seed C45-d) | `recoverable_unhealthy_repair_attempted` |
 | the post-repair results describe the grid after the repair (seed C45-c) | `post_repair_healthy_implies_N_good` |
@@ -155,6 +157,89 @@ example :
     let dec : Nat → List (Nat × Bytes) → Bytes := fun _ bl => (bl.head?.map (·.2)).getD []
     repairParams cap (C02.nodeAfter C02.exE Cfg.asIs (fun _ => 0) dec cap [(0, [(0, C02.exHonest 0)])]) = some C02.exPrm ∧
     repairParams cap (Node.init SymH cap) = none := by decide
+
+/-- **repair_output_is_encoder_output**: the repairer re-encodes what it downloaded with the parameters it derives
+    itself (k, N of the cap, segment size of the validated UEB); if its read completes, the publication it produces
+    IS the uploader's publication — the same cap and UEB and, for every share number, the same blocks, block hash
+    tree and share hash chain, and the same crypttext hash tree. Old and repaired shares are therefore one
+    consistent share set of the original file. -/
+theorem repair_output_is_encoder_output (E : Env H) (cfg : Cfg) (prm : Params) (ser : UEB H → Bytes)
+    (encode : Nat → Bytes → Nat → Bytes) (ct : Bytes) (sz : Sizes) (S : Setup E cfg prm ser encode ct sz)
+    (pick : List Nat → Nat) (decode : Nat → List (Nat × Bytes) → Bytes) (guess : Nat)
+    (history : List (Nat × Script H)) (scripts : List (Script H)) (p : Params)
+    (hp : repairParams (upload E prm encode ser ct).cap
+          (C02.nodeAfter E cfg pick decode (upload E prm encode ser ct).cap history) = some p)
+    (hdone : (read E cfg pick decode (upload E prm encode ser ct).cap guess scripts
+                (Node.init H (upload E prm encode ser ct).cap) 0 ct.length).2 = .done) :
+    upload E p encode ser
+        (read E cfg pick decode (upload E prm encode ser ct).cap guess scripts
+          (Node.init H (upload E prm encode ser ct).cap) 0 ct.length).1
+      = upload E prm encode ser ct := by
+  rw [repair_uses_original_parameters E cfg prm ser encode ct sz S pick decode history p hp]
+  exact repair_regenerates_identical_shares E cfg prm ser encode ct sz S pick decode guess scripts hdone
+
+/-- **repaired_share_passes_ct_stage** (completeness direction, crypttext hash tree): let `Prep` be the repairer's
+    publication (`= upload … ct` by `repair_output_is_encoder_output`). On a download node that has accepted the UEB,
+    whose ciphertext hash tree is a closed partial copy of the published tree and does not hold the leaf of `segnum`
+    yet, a share that answers every requested crypttext hash with the node of `Prep`'s tree — i.e. a repaired share,
+    or an old one — passes `_satisfy_ciphertext_hash_tree` (C35 completeness, `tryBody_complete`). -/
+theorem repaired_share_passes_ct_stage (E : Env H) (cfg : Cfg) (prm : Params) (ser : UEB H → Bytes)
+    (encode : Nat → Bytes → Nat → Bytes) (ct : Bytes) (sz : Sizes) (S : Setup E cfg prm ser encode ct sz)
+    (Prep : Published H) (hrep : Prep = upload E prm encode ser ct)
+    (pick : List Nat → Nat) (segnum : Nat) (v : View H) (nd : Node H) (u : UEB H)
+    (hk : nd.known = some (u, sz)) (hlen : nd.ctTree.length = Prep.ctT.length)
+    (hag : Agree nd.ctTree Prep.ctT) (hcl : Closed nd.ctTree) (hseg : segnum < sz.numSegs)
+    (hnew : Base.Merkle.get nd.ctTree (firstLeafNum sz.numSegs + segnum) = none)
+    (hhonest : ∀ i, i < Prep.ctT.length → v.ctHashes i = Base.Merkle.get Prep.ctT i) :
+    (stageCtHashes E cfg pick segnum v nd).1 = none := by
+  subst hrep
+  have hT : Genuine E.ops (upload E prm encode ser ct).ctT := build_genuine E.ops _
+  have hL : firstLeafNum sz.numSegs + segnum < nd.ctTree.length := by
+    rw [hlen]
+    show _ < (build E.ops (ctLeaves E prm ct)).length
+    rw [Integrity.build_length, ctLeaves_length, ← calcSizes_numSegs S.sizes]
+    have := roundupPow2_ge sz.numSegs
+    have := roundupPow2_pos sz.numSegs
+    unfold firstLeafNum; omega
+  exact honest_ct_hashes_accepted S.strict pick segnum v nd hk hT hlen hag hcl hL hnew hhonest
+
+/-- **readable_from_repaired_shares_partial**.  Full statement (NOT proved): after a repair that reports success,
+    every read that is offered any k distinct shares out of the old and the repaired ones ends `done` with the
+    file's bytes.  Proved here: (1) old and repaired shares are one share set of the original publication
+    (`repair_output_is_encoder_output`), so every block / hash a repaired share holds is the uploader's; (2) whatever
+    such a read writes is a prefix of the requested range and a read that ends `done` wrote exactly the file
+    (C02 `read_prefix_correct`, for arbitrary answers, hence also for repaired shares).  Missing links, each a
+    theorem elsewhere that is not yet instantiated on this model: acceptance of honest shares by the share-hash,
+    block-hash and data-block stages (the same C35 `tryBody_complete` argument as `repaired_share_passes_ct_stage`,
+    twice more, plus the leaf checks); decoding of any k genuine blocks (`Tahoe.C36.immutable_any_k_blocks_decode_rs256`,
+    `rs256_mds`, for `decode` := zfec); termination with k good shares (C03 / C46). -/
+theorem readable_from_repaired_shares_partial (E : Env H) (cfg : Cfg) (prm : Params) (ser : UEB H → Bytes)
+    (encode : Nat → Bytes → Nat → Bytes) (ct : Bytes) (sz : Sizes) (S : Setup E cfg prm ser encode ct sz)
+    (Prep : Published H) (hrep : Prep = upload E prm encode ser ct)
+    (pick : List Nat → Nat) (decode : Nat → List (Nat × Bytes) → Bytes) (guess : Nat) (scripts : List (Script H)) :
+    (∀ sh seg, Prep.block sh seg = (upload E prm encode ser ct).block sh seg) ∧
+    (∀ sh, Prep.blockT sh = (upload E prm encode ser ct).blockT sh) ∧
+    Prep.shareT = (upload E prm encode ser ct).shareT ∧ Prep.ctT = (upload E prm encode ser ct).ctT ∧
+    Prep.uebBytes = (upload E prm encode ser ct).uebBytes ∧
+    (let r := read E cfg pick decode Prep.cap guess scripts (Node.init H Prep.cap) 0 ct.length
+     r.1 <+: ct ∧ (r.2 = .done → r.1 = ct)) := by
+  subst hrep
+  refine ⟨fun _ _ => rfl, fun _ => rfl, rfl, rfl, rfl, ?_⟩
+  have h := C02.read_prefix_correct E cfg prm ser encode ct sz S pick decode guess scripts 0 ct.length
+  have e : (ct.drop 0).take ct.length = ct := by simp
+  rw [e] at h
+  exact h
+
+/-- non-vacuity: on the example file the node that accepted the honest share's UEB (nothing else yet) satisfies the
+    hypotheses of `repaired_share_passes_ct_stage` for segment 1 — and the stage accepts; a seeded tree is closed -/
+example :
+    let cap := (upload C02.exE C02.exPrm C02.exEncode C02.exSer C02.exCt).cap
+    let nd := (satisfy C02.exE Cfg.asIs (fun _ => 0) cap (Node.init SymH cap) 0 0
+                { C02.exHonest 0 with blockHashes := fun _ => none }).2     -- UEB accepted, then waits for block hashes
+    nd.known.isSome ∧ Base.Merkle.get nd.ctTree (firstLeafNum 2 + 1) = none ∧
+    (stageCtHashes C02.exE Cfg.asIs (fun _ => 0) 1 (C02.exHonest 1) nd).1 = none := by decide
+
+example : Closed (seed (newTree SymH 2) (SymH.raw 1)) := seed_closed 2 _
 
 /-- the regenerated share of the example verifies good under the original cap (both verifiers) -/
 example :
